@@ -182,7 +182,17 @@ func init() {
 			nh, ml = 5, 6
 		}
 		res := &Result{Prop: "C15", Tier: tier, Stats: map[string]int{}, Prelude: true}
-		v, n := lbExhaustive(nh, ml, shard)
+		var v string
+		var n int
+		func() {
+			// a panic of the load balancer is a verdict about it, not a harness failure
+			defer func() {
+				if r := recover(); r != nil {
+					v = fmt.Sprintf("the load balancer panicked during the exhaustive sweep: %v", r)
+				}
+			}()
+			v, n = lbExhaustive(nh, ml, shard)
+		}()
 		res.Stats["oracle.c15.exhaustive_histories"] = n
 		res.Stats[fmt.Sprintf("probe.c15.exhaustive_shard_%d_of_%d", shard%lbShards, lbShards)] = 1
 		res.Sample = fmt.Sprintf("exhaustive sweep: every well-formed history over %d hosts up to %d events whose bootstrap subset is in shard %d/%d: %d histories", nh, ml, shard%lbShards, lbShards, n)
